@@ -204,6 +204,8 @@ class ZContractInv(ZContract):
     """ZContract whose sidecar loop invariants come from the spec (they mention the spec's symbols)"""
     def verify(self):
         self.invariants = self.make().get('inv', {})
+        if self.lib is None or not self.lib:
+            self.lib = _hess_lib() if 'Hessenberg' in self.note else {}
         out = ZContract.verify(self)
         # only the value-level clauses are reported by this contract (sizes and indices are reported by the plain contract)
         return [v for v in out if v.kind in ('invariant', 'ensures', 'vacuity') or v.status != 'discharged']
@@ -212,6 +214,38 @@ CONTRACTS.append(ZContractInv('krylov.lanczos_iteration', _lanczos_beta, ('C14',
                               lib={'getattr.eps': _rs_eps, 'np.linalg.norm': _rs_norm, 'binop': _rs_binop, 'compare': _rs_compare, 'np.zeros': _rs_zeros,
                                    'getitem': _rs_getitem, 'setitem': _rs_setitem},
                               confirm=['lanczos_iteration'], note='positivity of the returned off-diagonals'))
+
+
+# ---- Arnoldi: the returned matrix is upper Hessenberg (C14) -- support predicate of vt/zqr.py on the matrix H ---------------------
+
+def _arnoldi_hessenberg():
+    n = z3.Int('n'); m = z3.Int('numiter'); a, b = z3.Ints('a b')
+    def inv_outer(env, ex, st):
+        H = env.get('H'); j = env['#iter']
+        if not getattr(H, 'is_sarr', False):
+            return z3.BoolVal(False)
+        return z3.ForAll([a, b], z3.Implies(H.nz(a, b), z3.And(a <= b + 1, b < j)))
+    def inv_inner(env, ex, st):
+        H = env.get('H'); k = env['#iter']; j = env.get('j')
+        if not getattr(H, 'is_sarr', False) or j is None:
+            return z3.BoolVal(False)
+        j = zint(j)
+        return z3.ForAll([a, b], z3.Implies(H.nz(a, b), z3.And(a <= b + 1, z3.Or(b < j, z3.And(b == j, a < k)))))
+    def post(ret, env, ex, st):
+        H, V = ret
+        if not getattr(H, 'is_sarr', False):
+            return [('matrix_is_upper_hessenberg', False)]
+        return [('matrix_is_upper_hessenberg', z3.ForAll([a, b], z3.Implies(z3.And(0 <= a, a < zint(H.shape[0]), 0 <= b, b < zint(H.shape[1]), H.nz(a, b)), a <= b + 1)))]
+    return dict(args={'Afunc': _afunc, 'vstart': ZArr((n,), 'param:vstart'), 'numiter': m}, requires=[n >= 1, m >= 1], post=post,
+                assume_asserts=['nrmv > 0'], inv={'for j in range(numiter - 1)': inv_outer, 'for k in range(j + 1)': inv_inner})
+
+def _hess_lib():
+    from . import zqr
+    return {k: zqr.LIB_Q[k] for k in ('np.zeros', 'getitem', 'setitem')}
+
+CONTRACTS.append(ZContractInv('krylov.arnoldi_iteration', _arnoldi_hessenberg, ('C14',), lib=None, confirm=['arnoldi_iteration'],
+                              note='upper Hessenberg structure of the returned matrix'))
+CONTRACTS[-1].lib = None       # filled lazily (vt.zqr imports this module's siblings)
 
 
 def _arnoldi():
